@@ -24,7 +24,8 @@ use iggy::tcp::config::{TcpClientConfig, TcpClientReconnectionConfig};
 use futures_util::StreamExt;
 use iggy::client::*;
 use iggy::clients::client::IggyClient;
-use iggy::clients::consumer::{AutoCommit, AutoCommitWhen, IggyConsumer};
+use iggy::clients::consumer::{AutoCommit, AutoCommitAfter, AutoCommitWhen, IggyConsumer, ReceivedMessage};
+use iggy::consumer_ext::{IggyConsumerMessageExt, MessageConsumer};
 use iggy::clients::producer::IggyProducer;
 use iggy::compression::compression_algorithm::CompressionAlgorithm;
 use iggy::consumer::Consumer;
@@ -132,9 +133,16 @@ enum Mode {
     Interval,
     IntervalOrPolling,
     IntervalOrEach,
+    /// the `After` modes only work through `IggyConsumerMessageExt::consume_messages`
+    AfterEach,
+    AfterAll,
+    AfterNth(u32),
 }
 
 impl Mode {
+    fn is_after(self) -> bool {
+        matches!(self, Mode::AfterEach | Mode::AfterAll | Mode::AfterNth(_))
+    }
     fn to_sdk(self, iv: IggyDuration) -> AutoCommit {
         match self {
             Mode::Disabled => AutoCommit::Disabled,
@@ -145,6 +153,9 @@ impl Mode {
             Mode::Interval => AutoCommit::Interval(iv),
             Mode::IntervalOrPolling => AutoCommit::IntervalOrWhen(iv, AutoCommitWhen::PollingMessages),
             Mode::IntervalOrEach => AutoCommit::IntervalOrWhen(iv, AutoCommitWhen::ConsumingEachMessage),
+            Mode::AfterEach => AutoCommit::After(AutoCommitAfter::ConsumingEachMessage),
+            Mode::AfterAll => AutoCommit::After(AutoCommitAfter::ConsumingAllMessages),
+            Mode::AfterNth(n) => AutoCommit::After(AutoCommitAfter::ConsumingEveryNthMessage(n)),
         }
     }
     /// modes whose commits follow consumption (never ahead of the last yielded message)
@@ -192,7 +203,7 @@ impl Settings {
             c_partition: 1 + r.below(partitions as u64) as u32,
             strat: *r.pick(&[Strat::Next, Strat::Next, Strat::Next, Strat::Next, Strat::Next, Strat::Offset0, Strat::Offset0, Strat::Offset0, Strat::First, Strat::Last]),
             c_batch: *r.pick(&[1u32, 2, 3, 5, 10, 100]),
-            mode: *r.pick(&[Mode::Disabled, Mode::Polling, Mode::All, Mode::Each, Mode::Nth(2), Mode::Nth(3), Mode::Interval, Mode::IntervalOrPolling, Mode::IntervalOrEach]),
+            mode: *r.pick(&[Mode::Disabled, Mode::Polling, Mode::All, Mode::Each, Mode::Nth(2), Mode::Nth(3), Mode::Interval, Mode::IntervalOrPolling, Mode::IntervalOrEach, Mode::AfterEach, Mode::AfterAll, Mode::AfterNth(2)]),
             poll_interval_ms: *r.pick(&[Some(1u64), Some(2), None]),
             names_numeric: r.chance(1, 2),
             manual_every: 1,
@@ -245,7 +256,26 @@ fn hv(hist: u64, set: &Settings, clause: &str, trig: &str, d: Value, evs: &[Ev])
     })
 }
 
+/// The application's handler for `consume_messages`: logs the message as yielded, then returns (the SDK commits after that).
+struct Recorder {
+    log: Arc<Log>,
+    conn: u32,
+    inc: u32,
+    count: AtomicU64,
+}
+
+impl MessageConsumer for Recorder {
+    async fn consume(&self, rm: ReceivedMessage) -> Result<(), IggyError> {
+        let tag = crate::world::head(&rm.message.payload);
+        self.log.push(Ev::Yield { conn: self.conn, inc: self.inc, part: rm.partition_id, off: rm.message.offset, tag });
+        self.count.fetch_add(1, Ordering::SeqCst);
+        Ok(())
+    }
+}
+
 struct Member {
+    /// the consumer's last `next()` was abandoned by the driver (timeout): one of its poll requests may still be in flight
+    pending_poll: bool,
     conn: u32,
     raw_tap_client: IggyClient,
     consumer: Option<IggyConsumer>,
@@ -551,7 +581,7 @@ async fn history_inner(hseed: u64, r: &mut Rng, set: &Settings, inst: &ServerIns
     for m in 0..set.members {
         let c = sdk_client(inst, 1 + m, &log, enc.clone()).await?;
         let consumer = build_consumer(set, &c, cs, ct).await?;
-        members.push(Member { conn: 1 + m, raw_tap_client: c, consumer: Some(consumer), inc: 0 });
+        members.push(Member { pending_poll: false, conn: 1 + m, raw_tap_client: c, consumer: Some(consumer), inc: 0 });
     }
     let consumer_id = if set.group { Consumer::group(if set.names_numeric { Identifier::numeric(77).unwrap() } else { Identifier::named("workers").unwrap() }) } else { Consumer::new(if set.names_numeric { Identifier::numeric(77).unwrap() } else { Identifier::named("workers").unwrap() }) };
     let one = Identifier::numeric(1).unwrap();
@@ -566,7 +596,71 @@ async fn history_inner(hseed: u64, r: &mut Rng, set: &Settings, inst: &ServerIns
         let budget = if last_phase { usize::MAX } else { r.range(0, (total as u64 / 2).max(3)) as usize };
         // consume
         let order: Vec<usize> = if last_phase { (0..members.len()).collect() } else { vec![mi] };
-        let mut poll_in_flight = false;
+        if set.mode.is_after() {
+            // consume_messages takes the consumer by value and drops it when told to stop: every phase is one incarnation on its own client
+            for idx in order.clone() {
+                let m = &mut members[idx];
+                let cons = m.consumer.take().unwrap();
+                let rec: &'static Recorder = Box::leak(Box::new(Recorder { log: log.clone(), conn: m.conn, inc: m.inc, count: AtomicU64::new(0) }));
+                let (stop_tx, stop_rx) = tokio::sync::oneshot::channel();
+                let task = tokio::spawn(async move { cons.consume_messages(rec, stop_rx).await });
+                let mut polls_at_yield = log.polls.load(Ordering::SeqCst);
+                let mut seen = 0u64;
+                let mut idle_rounds = 0u32;
+                loop {
+                    sleep_ms(5).await;
+                    let now = rec.count.load(Ordering::SeqCst);
+                    if now != seen {
+                        seen = now;
+                        polls_at_yield = log.polls.load(Ordering::SeqCst);
+                        idle_rounds = 0;
+                    }
+                    if (now as usize) >= budget || task.is_finished() {
+                        break;
+                    }
+                    if log.polls.load(Ordering::SeqCst).saturating_sub(polls_at_yield) >= IDLE_POLLS {
+                        break;
+                    }
+                    idle_rounds += 1;
+                    if idle_rounds > 6000 {
+                        return Err(Stop::Inconclusive("consume_messages: consumer answered too few polls to be judged idle".into()));
+                    }
+                }
+                yields += seen as usize;
+                let _ = stop_tx.send(());
+                match timed("consume_messages stop", task).await? {
+                    Ok(Ok(())) => {}
+                    Ok(Err(e)) => {
+                        let evs = log.evs.lock().unwrap().clone();
+                        return Err(hv(hseed, set, "consumer-yields", "error-item", json!({"consume_messages_returned": e.to_string(), "member": m.conn}), &evs));
+                    }
+                    Err(_) => return Err(Stop::Inconclusive("consume_messages task panicked".into())),
+                }
+                // the consumer is gone (possibly with a poll in flight): the application closes that client
+                let _ = timed("client shutdown", m.raw_tap_client.shutdown()).await?;
+                if last_phase {
+                    // final drain: the member leaves for good, the next one inherits its partitions
+                    continue;
+                }
+                quiesce(&admin, &log).await?;
+                let mut stored = BTreeMap::new();
+                for p in &my_parts {
+                    let o = timed("get_offset", admin.get_consumer_offset(&consumer_id, &one, &one, Some(*p))).await?;
+                    stored.insert(*p, o.ok().flatten().map(|x| x.stored_offset));
+                }
+                m.raw_tap_client = sdk_client(inst, m.conn, &log, enc.clone()).await?;
+                m.inc += 1;
+                recreations += 1;
+                log.push(Ev::Recreate { conn: m.conn, inc: m.inc, stored: stored.clone() });
+                stored_at_recreate.push((m.conn, m.inc, stored));
+                let c = build_consumer(set, &m.raw_tap_client, cs, ct).await?;
+                m.consumer = Some(c);
+            }
+            if last_phase {
+                break;
+            }
+            continue;
+        }
         for idx in order {
             let mut got = 0usize;
             let mut polls_at_yield = log.polls.load(Ordering::SeqCst);
@@ -577,7 +671,7 @@ async fn history_inner(hseed: u64, r: &mut Rng, set: &Settings, inst: &ServerIns
             while got < budget {
                 let nx = tokio::time::timeout(Duration::from_millis(IDLE_MS), cons.next()).await;
                 let Ok(item) = nx else {
-                    poll_in_flight = true;
+                    m.pending_poll = true;
                     if last_phase {
                         // the final drain decides completeness: "idle" is judged in polls answered since the last yield, not in wall time
                         if log.polls.load(Ordering::SeqCst).saturating_sub(polls_at_yield) >= IDLE_POLLS {
@@ -593,6 +687,7 @@ async fn history_inner(hseed: u64, r: &mut Rng, set: &Settings, inst: &ServerIns
                 };
                 polls_at_yield = log.polls.load(Ordering::SeqCst);
                 idle_rounds = 0;
+                m.pending_poll = false;
                 match item {
                     Some(Ok(rm)) => {
                         let tag = crate::world::head(&rm.message.payload);
@@ -625,10 +720,12 @@ async fn history_inner(hseed: u64, r: &mut Rng, set: &Settings, inst: &ServerIns
         }
         // drop one member's consumer, let its queued commits land, read the stored offsets, re-create it with the same identity
         if r.chance(2, 3) {
+            let poll_in_flight = members[mi].pending_poll;
             let same_client = if poll_in_flight { r.chance(1, 8) } else { r.chance(1, 2) };
             {
                 let m = &mut members[mi];
                 m.consumer = None; // drop
+                m.pending_poll = false;
                 if same_client && poll_in_flight {
                     taint.store(true, Ordering::SeqCst);
                 }
@@ -699,8 +796,11 @@ async fn quiesce(admin: &RawClient, log: &Arc<Log>) -> R<()> {
     Err(Stop::Inconclusive("commits never quiesced".into()))
 }
 
+/// distinct (connection, partition, offset) values committed so far: a detached interval task that re-sends the same value for ever does not count as activity
 fn commits_seen(log: &Arc<Log>) -> usize {
-    log.evs.lock().unwrap().iter().filter(|e| matches!(e, Ev::Commit { .. })).count()
+    let g = log.evs.lock().unwrap();
+    let set: BTreeSet<(u32, u32, u64)> = g.iter().filter_map(|e| if let Ev::Commit { conn, part, off, .. } = e { Some((*conn, *part, *off)) } else { None }).collect();
+    set.len()
 }
 
 fn judge(hseed: u64, set: &Settings, evs: &[Ev], expected: &BTreeMap<u32, Vec<String>>, final_stored: &BTreeMap<u32, Option<u64>>, recreations: u32) -> R<()> {
